@@ -10,8 +10,9 @@
 (* result it saw (memo) and demands of every event                         *)
 (*   BindingsImmutable  the snapshot after equals the snapshot before and  *)
 (*                      the bindings the session was given (C03),          *)
-(*   Deterministic / Independent / SeqEquivalent  the result equals the    *)
-(*                      memo, whatever ran before or concurrently          *)
+(*   Deterministic / Independent / SeqEquivalent  the result (output, or   *)
+(*                      error with its message) equals the memo, whatever  *)
+(*                      ran before or concurrently                         *)
 (*                      (C02, C03, C04), and                               *)
 (*   the result is the one the render reference allows, when it decides    *)
 (*   (so being consistently wrong is not accepted).                        *)
@@ -24,7 +25,7 @@ vars == <<l, memo>>
 
 SamePairs(p, q) == Len(p) = Len(q) /\ \A i \in 1..Len(p) : p[i][1] = q[i][1] /\ Same(p[i][2], q[i][2])
 Key(t) == <<t.sid, t.t, t.b>>
-Res(t) == <<t.outcome, t.out>>
+Res(t) == <<t.outcome, t.out, Fld(t, "msg", "")>>      \* an error: with its message
 Known(k) == \E m \in memo : m[1] = k
 Get(k) == (CHOOSE m \in memo : m[1] = k)[2]
 
@@ -33,9 +34,10 @@ Allowed(t) ==
   LET n == Fld(t, "anyorder", 0)
       ok(r) == r.status = "unspec" \/ (r.status = "ok" /\ t.outcome = "ok" /\ t.out = r.out) \/ (r.status = "error" /\ t.outcome = "error")
       cx == [Cx0 EXCEPT !.cache = Fld(t, "cache", <<>>)]
-  IN  IF n = 0 THEN ok(Render(cx, t.prog, EnvOf(t.env)))
+  IN  IF Fld(t, "illformed", FALSE) THEN t.outcome = "error"      \* a template that cannot parse never renders
+      ELSE IF n = 0 THEN ok(Render(cx, t.prog, EnvOf(t.env)))
       ELSE \E p \in Perms(n) : ok(Render([cx EXCEPT !.perm = p], t.prog, EnvOf(t.env)))
-Decided(t) == Render([Cx0 EXCEPT !.perm = <<1, 2, 3>>, !.cache = Fld(t, "cache", <<>>)], t.prog, EnvOf(t.env)).status # "unspec"
+Decided(t) == Fld(t, "illformed", FALSE) \/ Render([Cx0 EXCEPT !.perm = <<1, 2, 3>>, !.cache = Fld(t, "cache", <<>>)], t.prog, EnvOf(t.env)).status # "unspec"
 
 Why(t) ==
   IF t.outcome \in {"panic", "fatal", "timeout"} THEN "the render did not return"
